@@ -742,11 +742,10 @@ func runFuzz(harness, pkg string, fz Fuzz, env []string, tmp string) (string, []
 			before[e.Name()] = true
 		}
 	}
-	cache := filepath.Join(tmp, "fuzzcache-"+fz.Target)
+	_ = tmp // the fuzz corpus cache stays in GOCACHE (go test owns -test.fuzzcachedir)
 	ctx, cancel := context.WithTimeout(context.Background(), fz.Time+5*time.Minute)
 	defer cancel()
-	cmd := exec.CommandContext(ctx, "go", "test", "-tags", "verif", "-run", "^$", "-fuzz", "^"+fz.Target+"$", "-fuzztime", fz.Time.String(),
-		"-test.fuzzcachedir", cache, "./"+pkg)
+	cmd := exec.CommandContext(ctx, "go", "test", "-tags", "verif", "-run", "^$", "-fuzz", "^"+fz.Target+"$", "-fuzztime", fz.Time.String(), "./"+pkg)
 	cmd.Dir = harness
 	cmd.Env = env
 	out, err := cmd.CombinedOutput()
